@@ -409,6 +409,10 @@ bool World::exec_detect_op(const Step& s)
             names += f + " ";
         report("C13", "C13|detect|files-changed",
                "loading / existence probes on layout " + where + " (triple " + tri + ") changed the stored files; now: " + names);
+        // ... which is also database_exists() / loading modifying what is stored (C16), in a state only another program leaves
+        report("C16", "C16|detect|files-changed",
+               "database_exists / load_database / engine_library::exists / load on layout " + where + " (triple " + tri +
+                   ") created, deleted or changed a stored file; now: " + names);
     }
     // ---- put the undamaged disk back and carry on
     if (g_disk.open_handles() != 0)
